@@ -247,6 +247,13 @@ func runShard(r *vlib.Run, s *shard) {
 	}
 	// (the paranoid-mode livelock on a single-valued length table is a permanent recorded finding;
 	// its two deterministic cases live in corpus/C10 and are replayed first on every run)
+	// meek_lite: oversized 200 responses, every (size, framing) combination
+	if s.Name == "meek" && !aborted {
+		for a := 0; a < lib.MeekOversizedCombos; a++ {
+			c := lib.Case{T: s.T, Role: "client", Stage: "data", Gen: "oversized", Seed: rng.U64() >> 1, A: a}
+			runCase(r, s, d, &c)
+		}
+	}
 	// ScrambleSuit: the split inside the trailing MAC/mark at every offset, several padding lengths
 	if s.Name == "scramblesuit-hs" && !aborted {
 		for pad := 0; pad < r.Scale(4, 24); pad++ {
